@@ -650,3 +650,131 @@ func Sieve(t *rapid.T, q int64, maxHoles int) [][]P {
 	}
 	return rings
 }
+
+// convexBlob: a convex polygon (counter clockwise) with a unique rightmost and a unique leftmost vertex, about w x h lattice
+// steps, its edges sloping in all directions.
+func convexBlob(t *rapid.T, w, h int64, label string) []P {
+	n := rapid.IntRange(5, 11).Draw(t, label+"N")
+	base := rapid.Float64Range(0, 2*math.Pi).Draw(t, label+"Base")
+	var ring []P
+	for i := 0; i < n; i++ {
+		a := base + (float64(i)+rapid.Float64Range(0.15, 0.85).Draw(t, label+"Ang"))*2*math.Pi/float64(n)
+		p := P{int64(math.Round(float64(w)/2 + float64(w)/2*math.Cos(a))), int64(math.Round(float64(h)/2 + float64(h)/2*math.Sin(a)))}
+		if len(ring) > 0 && ring[len(ring)-1] == p {
+			continue
+		}
+		ring = append(ring, p)
+	}
+	return ring
+}
+
+// Pinched: two convex blobs with sloping edges joined by a corridor of generated width (below a pixel it closes and the shell
+// splits in two parts of different size), with small triangular or quadrilateral holes placed near the boundary of the blobs -
+// near sloping edges, in corners of the bounding boxes, next to the neck. Hole matching after a split has to decide between
+// several outer rings from the coordinates alone; this family gives it holes that hug the extremes of a part.
+// Not every draw is a valid polygon (the oracle checks exactly and sets the others aside).
+func Pinched(t *rapid.T, q int64) [][]P {
+	wa, ha := rapid.Int64Range(6*q, 16*q).Draw(t, "wa"), rapid.Int64Range(6*q, 16*q).Draw(t, "ha")
+	wb, hb := rapid.Int64Range(3*q, 10*q).Draw(t, "wb"), rapid.Int64Range(3*q, 10*q).Draw(t, "hb")
+	a := convexBlob(t, wa, ha, "a")
+	b := convexBlob(t, wb, hb, "b")
+	gap := rapid.Int64Range(q/2, 4*q).Draw(t, "neckLen")
+	half := rapid.Int64Range(1, q).Draw(t, "neckHalfWidth") // corridor width 2*half lattice steps: 0.5 .. 2 pixels for q = 4
+	// rightmost vertex of a, leftmost vertex of b
+	ri, li := 0, 0
+	for i, p := range a {
+		if p.X > a[ri].X || p.X == a[ri].X && p.Y < a[ri].Y {
+			ri = i
+		}
+	}
+	for i, p := range b {
+		if p.X < b[li].X || p.X == b[li].X && p.Y < b[li].Y {
+			li = i
+		}
+	}
+	dy := a[ri].Y - b[li].Y + rapid.Int64Range(-q, q).Draw(t, "neckSlope") // the corridor may slope a little
+	dx := a[ri].X + gap - b[li].X
+	for i := range b {
+		b[i] = P{b[i].X + dx, b[i].Y + dy}
+	}
+	var shell []P
+	for k := 1; k <= len(a); k++ { // a, starting after its rightmost vertex, back to it
+		i := (ri + k) % len(a)
+		if i == ri {
+			break
+		}
+		shell = append(shell, a[i])
+	}
+	shell = append(shell, P{a[ri].X, a[ri].Y - half})
+	shell = append(shell, P{b[li].X, b[li].Y - half})
+	for k := 1; k < len(b); k++ {
+		shell = append(shell, b[(li+k)%len(b)])
+	}
+	shell = append(shell, P{b[li].X, b[li].Y + half})
+	shell = append(shell, P{a[ri].X, a[ri].Y + half})
+	if !kernel.RingSimple(shell) { // (a neck that cuts a corner of a blob: rare) fall back to the larger blob alone
+		shell = a
+	}
+	rings := [][]P{shell}
+	// holes near the boundary of a blob
+	centroid := func(r []P) P {
+		var sx, sy int64
+		for _, p := range r {
+			sx, sy = sx+p.X, sy+p.Y
+		}
+		return P{sx / int64(len(r)), sy / int64(len(r))}
+	}
+	nh := rapid.IntRange(1, 3).Draw(t, "pinchHoles")
+	for k := 0; k < nh; k++ {
+		blob := a
+		if rapid.Bool().Draw(t, "holeInB") {
+			blob = b
+		}
+		c := centroid(blob)
+		i := rapid.IntRange(0, len(blob)-1).Draw(t, "holeEdge")
+		p0, p1 := blob[i], blob[(i+1)%len(blob)]
+		// a point on the edge (or at the vertex), pulled towards the centroid by a generated fraction
+		f := rapid.Int64Range(0, 8).Draw(t, "along")
+		m := P{p0.X + (p1.X-p0.X)*f/8, p0.Y + (p1.Y-p0.Y)*f/8}
+		pull := rapid.Int64Range(1, 5).Draw(t, "pull") // eighths of the way to the centroid
+		hc := P{m.X + (c.X-m.X)*pull/8, m.Y + (c.Y-m.Y)*pull/8}
+		s := rapid.Int64Range(q/2, 3*q).Draw(t, "holeSize")
+		var hole []P
+		switch rapid.IntRange(0, 3).Draw(t, "holeShape") {
+		case 0: // triangle with its right angle towards the upper right
+			hole = []P{{hc.X, hc.Y}, {hc.X - s, hc.Y}, {hc.X, hc.Y - s}}
+		case 1: // towards the lower left
+			hole = []P{{hc.X, hc.Y}, {hc.X + s, hc.Y}, {hc.X, hc.Y + s}}
+		case 2: // square
+			hole = []P{{hc.X, hc.Y}, {hc.X + s, hc.Y}, {hc.X + s, hc.Y + s}, {hc.X, hc.Y + s}}
+		default: // a sliver parallel to the edge
+			ex, ey := p1.X-p0.X, p1.Y-p0.Y
+			l := max(abs64(ex), abs64(ey), 1)
+			hole = []P{{hc.X, hc.Y}, {hc.X + ex*s/l, hc.Y + ey*s/l}, {hc.X + ex*s/l - ey*q/(2*l), hc.Y + ey*s/l + ex*q/(2*l)}}
+		}
+		// construction rather than rejection: a hole that does not fit (touches or leaves the shell, meets another hole) is left out
+		if cand := append(append([][]P{}, rings...), hole); kernel.ValidPolygon(cand) {
+			rings = cand
+		}
+	}
+	// shift into the positive quadrant
+	var mx, my int64
+	for _, r := range rings {
+		for _, p := range r {
+			mx, my = min(mx, p.X), min(my, p.Y)
+		}
+	}
+	for _, r := range rings {
+		for i := range r {
+			r[i] = P{r[i].X - mx, r[i].Y - my}
+		}
+	}
+	return rings
+}
+
+func abs64(v int64) int64 {
+	if v < 0 {
+		return -v
+	}
+	return v
+}
